@@ -11,7 +11,7 @@ RULE = ("three kinds of case: (a) matched DST grids r_j=j dr, Q_k=k pi/(N dr) wi
         "at both ends: F->G->F, G->F->G, S->g->S, g->S->g and basis-vector partners; (b) closed-form family G(r)=sum A r exp(-a r^2) "
         "<-> F(Q)=sum A sqrt(pi) Q/(4 a^1.5) exp(-Q^2/4a) on fine grids (step<=0.05/sqrt(a), range>=12/sqrt(a)), both directions, "
         "compared with the closed form; non-trivial = N>=3 or at least one family member with A != 0")
-DIST = ["kind", "with_unc", "intgrid", "window"]
+DIST = ["kind", "with_unc", "intgrid", "window", "units"]
 SHRINK = None
 
 
@@ -42,7 +42,14 @@ def _gen(rng, i, tier):
         f, _ = data(rng, np.arange(N + 1, dtype=float), kind=str(rng.choice(["noise", "smooth", "spike", "big"])))
         f[0] = f[-1] = 0.0
         m = int(rng.integers(1, N)) if N > 1 else 1
-        return dict(kind="matched", N=N, dr=dr, f=tolist(f), m=m, kw=material(rng), intgrid=intgrid)
+        kwm = material(rng)
+        units = None
+        if intgrid is None and rng.random() < 0.1:
+            # the same matched grids with lengths in metres instead of Angstrom: r 1e-10 times smaller, number density 1e30 times larger
+            dr *= 1e-10
+            kwm["rho"] = float(kwm["rho"]) * 1e30
+            units = "metres"
+        return dict(kind="matched", N=N, dr=dr, f=tolist(f), m=m, kw=kwm, intgrid=intgrid, units=units)
     k = int(rng.integers(1, 4))
     a = [float(10 ** rng.uniform(-1, 1)) for _ in range(k)]
     A = [float(rng.normal() * 3) for _ in range(k)]
